@@ -1,13 +1,20 @@
 """C31 Client-side timestamps strictly increase across all threads.
 
-Engine S: 2-3 virtual threads call one shared MonotonicTimestampGenerator; every clock reading is
-a data choice from a small domain (standing still, going backwards, jumping far ahead), every
-source line of the generator is a scheduling point; all executions with at most `bound`
-preemptions are enumerated.
+Engine S: 1-3 virtual threads call one shared MonotonicTimestampGenerator; every clock reading is
+a data choice from a small domain (standing still, going backwards, jumping far ahead, falling
+more than the warning threshold behind, moving by fractions of a microsecond), every source line
+of the generator is a scheduling point (so is every re-acquisition of its lock); all executions
+with at most `bound` preemptions are enumerated.
+
+The clock is what the driver really reads: a float number of seconds.  The oracle converts a
+reading to whole microseconds exactly (fractions.Fraction), not with the driver's arithmetic.
 """
+import logging
+from fractions import Fraction
+
 from vt import sched, vthreading
 from vt.world import vworld          # noqa: F401  installs nothing yet; makes the driver importable
-from vt.core import Part
+from vt.core import Part, HarnessError
 
 import cassandra.timestamps as ts
 
@@ -15,11 +22,17 @@ META = {
     'level': 'model_checking',
     'engine': 'S',
     'technique': 'stateless schedule exploration (preemption-bounded, line-granular) x exhaustive clock-reading scripts on the real generator',
-    'text': 'All executions of 2 threads x 2 calls (quick: preemption bound 2; thorough: also 3 threads x 1-2 calls, bound 3) of a '
-            'shared MonotonicTimestampGenerator, with every clock-reading sequence over {10,11,12} us and over {10,12,3000000} us '
-            '(drift-warning branch) chosen per call; scheduling points at the lock and at every source line of __call__, '
-            '_next_timestamp and _maybe_warn.  Oracle: all returned values distinct, each >= the reading taken for that call, '
-            'each thread\'s values increasing, and a call that starts after another returned gets a larger value.',
+    'text': 'All executions of a shared default MonotonicTimestampGenerator called by 2 threads x 2 calls (quick: preemption bound 2 for '
+            'the whole-microsecond domain, 1 for the others; thorough: bound 2-3, also 3 threads) and by 1 thread x 4 calls (thorough: 5), '
+            'with every clock-reading sequence chosen per call from: whole microseconds {10,11,12} us (standing still / stepping back); '
+            '{10,1500000,3000000} us (jump far ahead, then fall back by more than the 1 s warning threshold with the warning interval '
+            'elapsed: the "Clock skew detected" branch is taken, and also the rate-limited and the below-threshold variants; the number '
+            'of executions that emitted the warning is counted and must be > 0); float seconds with sub-microsecond parts and inexact '
+            'float products {16.0, 16.0000005, 16.000001, 16.0000015, 16.000002} s and, epoch-sized, 1.7e9 s + {0, 2.4e-7, 4.8e-7, '
+            '9.5e-7, 1.2e-6, 1.9e-6} (single thread; first three of the 16 s family for two threads).  Scheduling points at the '
+            'lock and at every source line of __call__, _next_timestamp and _maybe_warn.  Oracle: all returned values distinct, '
+            'each >= the exact floor in microseconds of the float reading taken for that call, each thread\'s values increasing, and '
+            'a call that starts after another returned gets a larger value.',
     'note': 'threading.Lock in cassandra.timestamps is replaced by the scheduler-aware VLock; preemption granularity is the '
             'source line (CPython hands the GIL over between bytecodes; a read-modify-write within one line is not split).',
     'design_ref': 'C31',
@@ -30,16 +43,49 @@ FOCUS = [ts.MonotonicTimestampGenerator.__call__.__code__,
          ts.MonotonicTimestampGenerator._maybe_warn.__code__]
 
 
+def exact_us(t):
+    """Whole microseconds of a float clock reading in seconds, computed exactly (independent of the driver's
+    float product `t * 1e6`, which is the correctly rounded value of this exact product and therefore never
+    truncates to less than this floor)."""
+    return int(Fraction(t) * 1000000 // 1)
+
+
+EPOCH = 1700000000.0
+ULP = 2.0 ** -22        # spacing of floats (seconds) at 1.7e9: about 0.24 us
+
+
+def clock_values(params):
+    """The float-seconds readings of a configuration."""
+    unit, dom = params.get('unit', 'us'), params['domain']
+    if unit == 'us':
+        return [v / 1e6 for v in dom]          # whole microseconds, the product with 1e6 is exact for these
+    if unit == 's':
+        return [float(v) for v in dom]
+    if unit == 'epoch-ulp':
+        return [EPOCH + k * ULP for k in dom]  # exact: consecutive representable readings
+    raise HarnessError('unknown clock unit %r' % (unit,))
+
+
 class Clock(object):
-    def __init__(self, s, domain, readings):
-        self.s, self.domain, self.readings = s, domain, readings
+    def __init__(self, s, values, readings):
+        self.s, self.values, self.readings = s, values, readings
 
     def time(self):
-        v = self.domain[self.s.choose(len(self.domain), 'clock')]
-        t = v / 1e6
+        t = self.values[self.s.choose(len(self.values), 'clock')]
         me = self.s.current
-        self.readings.setdefault(me.tid, []).append(int(t * 1e6))
+        self.readings.setdefault(me.tid, []).append(t)
         return t
+
+
+class SkewCounter(logging.Handler):
+    """Counts the generator's 'Clock skew detected' records (and keeps them off stderr)."""
+    def __init__(self):
+        logging.Handler.__init__(self)
+        self.n = 0
+
+    def emit(self, record):
+        if 'Clock skew detected' in record.getMessage():
+            self.n += 1
 
 
 def harness(params, prefix, part):
@@ -47,7 +93,13 @@ def harness(params, prefix, part):
     readings, results, spans = {}, {}, []
     orig_time, orig_lock = ts.time, ts.Lock
     ts.Lock = vthreading.VLock
-    ts.time = Clock(s, params['domain'], readings)
+    ts.time = Clock(s, clock_values(params), readings)
+    skew = SkewCounter()
+    lg = logging.getLogger(ts.__name__)
+    orig_log = (lg.level, lg.propagate, lg.disabled)
+    lg.setLevel(logging.WARNING)
+    lg.propagate, lg.disabled = False, False
+    lg.addHandler(skew)
     try:
         gen = ts.MonotonicTimestampGenerator()
 
@@ -64,6 +116,9 @@ def harness(params, prefix, part):
         s.run()
     finally:
         ts.time, ts.Lock = orig_time, orig_lock
+        lg.removeHandler(skew)
+        lg.setLevel(orig_log[0])
+        lg.propagate, lg.disabled = orig_log[1], orig_log[2]
     data = {'params': params, 'prefix': s.choices()}
     if s.failure:
         part.violation('C31/%s' % s.failure[0], s.failure[1], data)
@@ -72,39 +127,69 @@ def harness(params, prefix, part):
         if t.exc is not None:
             part.violation('C31/exception/%s' % type(t.exc).__name__, repr(t.exc), data)
             return s
+    if skew.n:
+        part.count('skew_warning_executions')
     allv = [v for vs in results.values() for v in vs]
-    part.outcome(tuple(sorted(allv)))
+    part.outcome((tuple(sorted(allv)), 'warned' if skew.n else ''))
+    rd_us = dict((tid, [exact_us(t) for t in rs]) for tid, rs in readings.items())
+    if any(type(v) is not int for v in allv):
+        part.violation('C31/not-whole-microseconds', 'values %r (readings %r)' % (results, readings), data)
     if len(set(allv)) != len(allv):
-        part.violation('C31/duplicate-timestamp', 'values %r (readings %r)' % (results, readings), data)
+        part.violation('C31/duplicate-timestamp', 'values %r (readings %r s = %r us)' % (results, readings, rd_us), data)
     for tid, vs in results.items():
         if any(b <= a for a, b in zip(vs, vs[1:])):
-            part.violation('C31/thread-not-increasing', 'thread %d got %r' % (tid, vs), data)
-        for v, r in zip(vs, readings.get(tid, [])):
+            part.violation('C31/thread-not-increasing', 'thread %d got %r (readings %r s)' % (tid, vs, readings.get(tid)), data)
+        for v, r, t in zip(vs, rd_us.get(tid, []), readings.get(tid, [])):
             if v < r:
-                part.violation('C31/behind-clock-reading', 'returned %d for reading %d' % (v, r), data)
+                part.violation('C31/behind-clock-reading', 'returned %d for reading %r s = %d us' % (v, t, r), data)
     for a in spans:
         for b in spans:
             if a[1] <= b[0] and not b[2] > a[2]:
                 part.violation('C31/not-increasing-across-threads', 'call returning %d finished before the call returning %d started'
                                % (a[2], b[2]), data)
-    if any(p.chosen for p in s.trace if not p.kind.startswith('data')):
-        part.mark_nontrivial(repr(s.choices()) + repr(params['calls']) + repr(params['domain']))
-    part.sample({'calls': params['calls'], 'domain': params['domain'], 'choices': s.choices(), 'values': results}, limit=1)
+    if len(params['calls']) == 1:
+        # single thread: non-trivial when some call could not simply return its clock reading
+        vs, rs = results.get(0, []), rd_us.get(0, [])
+        nontrivial = any(r <= prev for prev, r in zip(vs, rs[1:]))
+    else:
+        nontrivial = any(p.chosen for p in s.trace if not p.kind.startswith('data'))
+    if nontrivial:
+        part.mark_nontrivial(repr(s.choices()) + repr(params['calls']) + repr(params.get('unit', 'us')) + repr(params['domain']))
+    part.sample({'calls': params['calls'], 'unit': params.get('unit', 'us'), 'domain': params['domain'], 'choices': s.choices(),
+                 'values': results}, limit=1)
     return s
 
 
+FRAC = [16.0, 16.0000005, 16.000001, 16.0000015, 16.000002]
+
+
 def run(ctx):
+    T = ctx.thorough
     cfgs = [('2x2-still-back', {'calls': [2, 2], 'domain': [10, 11, 12]}, 2),
-            ('2x2-drift', {'calls': [2, 2], 'domain': [10, 12, 3000000]}, 2 if ctx.thorough else 1)]
-    if ctx.thorough:
+            ('2x2-drift', {'calls': [2, 2], 'domain': [10, 1500000, 3000000]}, 2 if T else 1),
+            ('1x%d-frac' % (5 if T else 4), {'calls': [5 if T else 4], 'unit': 's', 'domain': FRAC}, 0),
+            ('1x%d-epoch' % (4 if T else 3), {'calls': [4 if T else 3], 'unit': 'epoch-ulp', 'domain': list(range(9))}, 0),
+            ('1x4-drift', {'calls': [4], 'domain': [10, 1500000, 3000000]}, 0),
+            ('2x2-frac', {'calls': [2, 2], 'unit': 's', 'domain': FRAC[:3]}, 2 if T else 1)]
+    if T:
         cfgs += [('3x1', {'calls': [1, 1, 1], 'domain': [10, 11, 12]}, 3),
-                 ('3-211', {'calls': [2, 1, 1], 'domain': [10, 12]}, 2)]
+                 ('3-211', {'calls': [2, 1, 1], 'domain': [10, 12]}, 2),
+                 ('3-211-drift', {'calls': [2, 1, 1], 'domain': [1500000, 3000000]}, 2)]
     for name, params, bound in cfgs:
+        before = ctx.counters.get('skew_warning_executions', 0)
         sched.explore(ctx, 'c31-' + name, harness, params, bound)
+        warned = ctx.counters.get('skew_warning_executions', 0) - before
+        ctx.cov['harnesses']['c31-' + name]['skew_warning_executions'] = warned
+        if 'drift' in name and not warned:
+            raise HarnessError('%s: no execution reached the clock-skew warning branch' % name)
     ctx.count('states', ctx.counters.get('executions', 0))
     ctx.cov['rule'] = ('executions = distinct (schedule, clock script) pairs within the preemption bound; non-trivial = execution with at '
-                       'least one non-default scheduling choice; outcomes = the multiset of values returned')
+                       'least one non-default scheduling choice (single-thread configurations: at least one call whose reading was not '
+                       'ahead of the previously returned value); outcomes = the multiset of values returned + whether the skew warning '
+                       'was emitted; skew_warning_executions = executions in which the "Clock skew detected" record was emitted')
     ctx.assume('line-level atomicity of CPython statements (see DESIGN.md 3.1)')
+    ctx.assume('the log handler that receives the skew warning does not itself call the generator; a lock released around the '
+               'emission is visible because the lines before and after it and the re-acquisition are scheduling points')
 
 
 def replay(ctx, data):
